@@ -379,6 +379,7 @@ def check_receiver(ctx, N):
         """First (environment, state) in which the combinational strobe `sig` (last applicable assignment wins, default 0)
         differs from spec(env, state); None if it equals the specification in every state."""
         ds = sorted(ir.drivers(sig, exact=True), key=lambda a: a.order)
+        ds = [x for a in ds for x in q.flag_arms(ir, a)]       # `strobe.eq(cond)` as its two constant arms, in order
 
         def table():
             if not ds or any(a.domain != 'comb' or not isinstance(a.rhs, E) or a.rhs.op != 'const' for a in ds):
